@@ -9,7 +9,7 @@
      requested mand src k
                       what the source asks for the alternative named k:
                         plain None and not mandatory     -> false
-                        "+" form                          -> k is one of the names joined with "+"
+                        "+" form                          -> k is (up to case) one of the names joined with "+"
                         otherwise                         -> the LAST word naming k is starred, or is the only word
      wf_choice_master at least one alternative, names distinct up to case, no name that still starts
                       with "*" once the selection star is removed, none called none/auto
@@ -58,8 +58,7 @@ Proof. exact none_clears. Qed.
 Print Assumptions C11_none_clears.
 
 (* A starred name, or a single name, that is not an alternative: the first such word raises
-   "Not a possible choice" naming it as written, with the master's words as the list of choices -
-   provided the same name was not given un-starred earlier (see C11_refuted_shadowed_star). *)
+   "Not a possible choice" naming it as written, with the master's words as the list of choices. *)
 Theorem C11_unknown_selected_errors : forall opt m pre w post,
   let src := pre ++ w :: post in
   let sg := (length src =? 1)%nat in
@@ -67,38 +66,62 @@ Theorem C11_unknown_selected_errors : forall opt m pre w post,
   (mandatory opt || negb (is_plain_none src)) = true -> plus_form src = false ->
   flagged sg w = true -> mems (key w) (keys m) = false ->
   (forall p, In p pre -> flagged sg p = true -> mems (key p) (keys m) = true) ->
-  (forall p, In p pre -> flagged sg p = false -> key p <> key w) ->
   choice_fetch_x opt m src false = FNotAChoice (unstar (wv w)) (wline w) (map wv m).
 Proof. exact unknown_selected_errors. Qed.
 Print Assumptions C11_unknown_selected_errors.
 
-(* The same in the "+" form: the first joined name that is not (literally) a lower-cased alternative. *)
+(* The same in the "+" form: the first joined name that is not an alternative (up to case). *)
 Theorem C11_unknown_selected_errors_plus : forall opt m src ign pre v l post,
   master_ok m = true -> plus_form src = true ->
   plus_pieces src = pre ++ (v, l) :: post ->
-  (forall p, In p pre -> mems (fst p) (keys m) = true) -> mems v (keys m) = false ->
+  (forall p, In p pre -> mems (lowers (fst p)) (keys m) = true) -> mems (lowers v) (keys m) = false ->
   choice_fetch_x opt m src ign = FNotAChoice v l (map wv m).
 Proof. exact unknown_selected_errors_plus. Qed.
 Print Assumptions C11_unknown_selected_errors_plus.
 
+(* Never silently dropped: as soon as SOME selected name of the source (starred, single, or joined
+   with "+") is not an alternative, fetch raises, naming such a name - wherever else that name
+   occurs in the source (formerly refuted for "x *x"). *)
+Theorem C11_selected_unknown_never_dropped : forall opt m src,
+  master_ok m = true -> is_plain_auto src = false ->
+  (mandatory opt || negb (is_plain_none src)) = true ->
+  (plus_form src = false ->
+     (exists w, In w src /\ flagged (length src =? 1)%nat w = true /\ mems (key w) (keys m) = false) ->
+     exists w, In w src /\ flagged (length src =? 1)%nat w = true /\ mems (key w) (keys m) = false
+       /\ choice_fetch_x opt m src false = FNotAChoice (unstar (wv w)) (wline w) (map wv m)) /\
+  (plus_form src = true -> forall ign,
+     (exists n, In n (plus_names src) /\ mems (lowers n) (keys m) = false) ->
+     exists v l, In (v, l) (plus_pieces src) /\ mems (lowers v) (keys m) = false
+       /\ choice_fetch_x opt m src ign = FNotAChoice v l (map wv m)).
+Proof. exact selected_unknown_never_dropped. Qed.
+Print Assumptions C11_selected_unknown_never_dropped.
+
+(* The "+" form is case-insensitive like the other spellings: when every joined name is an
+   alternative up to case, exactly those alternatives are starred (formerly refuted for "A+b"). *)
+Theorem C11_plus_case_insensitive : forall opt m src ign,
+  master_ok m = true -> plus_form src = true ->
+  (forall n, In n (plus_names src) -> mems (lowers n) (keys m) = true) ->
+  choice_fetch opt m src ign =
+    Ok (map (fun w => restar (mems (key w) (map lowers (plus_names src))) w) m).
+Proof. exact plus_case_insensitive. Qed.
+Print Assumptions C11_plus_case_insensitive.
+
 (* Conversely every error of fetch is of that kind: it names a selected word of the source whose
-   name is not an alternative and lists the master's words; unselected names never raise. *)
+   name is not an alternative (up to case) and lists the master's words; unselected names never raise. *)
 Theorem C11_error_sound : forall opt m src ign v l alts,
   choice_fetch_x opt m src ign = FNotAChoice v l alts ->
   alts = map wv m /\
   (plus_form src = false ->
      ign = false /\ exists pre w post, src = pre ++ w :: post /\ v = unstar (wv w) /\ l = wline w
        /\ flagged (length src =? 1)%nat w = true /\ mems (key w) (keys m) = false) /\
-  (plus_form src = true -> In (v, l) (plus_pieces src) /\ mems v (keys m) = false).
+  (plus_form src = true -> In (v, l) (plus_pieces src) /\ mems (lowers v) (keys m) = false).
 Proof. exact error_sound. Qed.
 Print Assumptions C11_error_sound.
 
-(* An un-starred unknown name among several words changes nothing (result or error), as long as no
-   later word stars that same unknown name. *)
+(* An un-starred unknown name among several words changes nothing (neither result nor error). *)
 Theorem C11_unknown_unselected_ignored : forall opt m pre u post ign,
   (2 <= length (pre ++ post))%nat ->
   starts_star (wv u) = false -> mems (key u) (keys m) = false ->
-  (forall p, In p post -> starts_star (wv p) = true -> key p <> key u) ->
   plus_form (pre ++ post) = false -> plus_form (pre ++ u :: post) = false ->
   choice_fetch_x opt m (pre ++ u :: post) ign = choice_fetch_x opt m (pre ++ post) ign.
 Proof. exact unknown_unselected_ignored. Qed.
@@ -159,29 +182,6 @@ Theorem C11_ignore_errors_normal : forall opt m src v l alts,
   plus_form src = false -> choice_fetch_x opt m src true <> FNotAChoice v l alts.
 Proof. exact ignore_errors_normal. Qed.
 Print Assumptions C11_ignore_errors_normal.
-
-(* F9 - the property fails in the "+" form for names containing upper-case letters:
-   master A b C, source A+b is refused naming A, while a+b selects A and b. *)
-Theorem C11_refuted_plus_case :
-  exists m src src',
-    plus_form src = true
-    /\ (forall n, In n (plus_names src) -> mems (lowers n) (keys m) = true)
-    /\ choice_fetch ANone m src false = UErr (s_ "NotAChoice") (s_ "A") 0
-    /\ src' = map (fun w => mkword (lowers (wv w)) (wq w) (wline w)) src
-    /\ choice_fetch ANone m src' false = Ok [uw (s_ "*A"); uw (s_ "*b"); uw (s_ "C")].
-Proof. exact refuted_plus_case. Qed.
-Print Assumptions C11_refuted_plus_case.
-
-(* finding C11-shadowed-star - a selected unknown name is silently dropped when the same name came earlier without a
-   star: master a b, source "x *x" returns the master unchanged; "*x" and "*x x" are refused. *)
-Theorem C11_refuted_shadowed_star :
-  exists m u s,
-    starts_star (wv s) = true /\ mems (key s) (keys m) = false
-    /\ choice_fetch ANone m [u; s] false = Ok m
-    /\ choice_fetch ANone m [s] false = UErr (s_ "NotAChoice") (s_ "x") 0
-    /\ choice_fetch ANone m [s; u] false = UErr (s_ "NotAChoice") (s_ "x") 0.
-Proof. exact refuted_shadowed_star. Qed.
-Print Assumptions C11_refuted_shadowed_star.
 
 (* Outside wf_choice_master the names are not kept: an alternative written **a comes back as *a,
    i.e. as the selected alternative a. *)
@@ -244,4 +244,14 @@ Example C11_example_mandatory :
     = UErr (s_ "UnspecifiedChoice") [] 1
   /\ choice_from_words false (ABool true) [mkword (s_ "Ab") QN 1; mkword (s_ "c_d") QN 1; mkword (s_ "x y") Q1 2]
     = Ok PNone.
+Proof. vm_compute. repeat split; reflexivity. Qed.
+
+(* the two inputs on which the property used to fail (repaired in the code) *)
+Example C11_example_former_findings :
+  choice_fetch ANone [uw (s_ "A"); uw (s_ "b"); uw (s_ "C")] [uw (s_ "A+b")] false
+    = Ok [uw (s_ "*A"); uw (s_ "*b"); uw (s_ "C")]
+  /\ choice_fetch ANone [uw (s_ "a"); uw (s_ "b")] [uw (s_ "x"); uw (s_ "*x")] false
+    = UErr (s_ "NotAChoice") (s_ "x") 0
+  /\ choice_fetch ANone [uw (s_ "a"); uw (s_ "b")] [uw (s_ "x"); uw (s_ "*x")] true
+    = Ok [uw (s_ "a"); uw (s_ "b")].
 Proof. vm_compute. repeat split; reflexivity. Qed.
